@@ -199,41 +199,43 @@ theorem runLoop_none_not_paused (ops : HeapOps H) (gc : St H → St H) :
 def EntryOK {ops : HeapOps H} (cl : CodeLaws ops) (entry : Nat) : Prop :=
   ∀ h, cl.HInv h → ∃ t, tyOf (cl.code h) entry = some t ∧ t.entry = true
 
-/-- no evaluation in progress, as far as the stack discipline is concerned -/
+/-- no evaluation in progress, as far as the stack discipline is concerned (`acc` holds a value: the result
+    of the last evaluation, or `Undefined`) -/
 def Idle {ops : HeapOps H} (cl : CodeLaws ops) (s : St H) : Prop :=
-  cl.HInv s.heap ∧ s.stack.sp = cl.e ∧ s.stack.sp < s.stack.cells.length
+  cl.HInv s.heap ∧ s.stack.sp = cl.e ∧ s.stack.sp < s.stack.cells.length ∧ cl.Val s.acc
 
 /-- **`Balanced`, proved**: a successful evaluation of verified code returns `sp` to its entry value. -/
 theorem balanced_of_verified {ops : HeapOps H} (cl : CodeLaws ops) {gc : St H → St H} (gl : GcLaws cl gc)
     (s : St H) (entry fuel : Nat) (s' : St H) (hidle : Idle cl s) (hentry : EntryOK cl entry)
     (hr : runEval ops gc none fuel (prepare s entry) = .value s') : Idle cl s' := by
   obtain ⟨t, ht, hent⟩ := hentry s.heap hidle.1
-  have hw := WFS.initial (entry := entry) hidle.1 ht hent hidle.2.1 hidle.2.2
+  have hw := WFS.initial (entry := entry) hidle.1 ht hent hidle.2.1 hidle.2.2.1 hidle.2.2.2
   have key := runLoop_wf gl none fuel 0 (prepare s entry) [] hw
   unfold runEval at hr
   split at hr <;> try (cases hr)
   rename_i sd hd
   rw [hd] at key
-  obtain ⟨k1, k2, k3⟩ := key
+  obtain ⟨k1, k2, k3, k4⟩ := key
   obtain ⟨g1, _, _, _⟩ := gl.frame (onDone sd)
-  refine ⟨gl.inv _ k2, ?_, ?_⟩
+  refine ⟨gl.inv _ k2, ?_, ?_, ?_⟩
   · rw [g1]; exact k1
   · rw [g1]; simpa [onDone, Stack.clear] using k3
+  · rw [gl.acc]; exact k4
 
 /-- a failed evaluation of verified code leaves an idle machine, too (T07.1 + the heap invariant) -/
 theorem failed_idle {ops : HeapOps H} (cl : CodeLaws ops) (he : cl.e = 0) {gc : St H → St H} (gl : GcLaws cl gc)
     (s : St H) (entry fuel : Nat) (f : Fault) (s' : St H) (hidle : Idle cl s) (hentry : EntryOK cl entry)
     (hr : runEval ops gc none fuel (prepare s entry) = .failed f s') : Idle cl s' := by
   obtain ⟨t, ht, hent⟩ := hentry s.heap hidle.1
-  have hw := WFS.initial (entry := entry) hidle.1 ht hent hidle.2.1 hidle.2.2
+  have hw := WFS.initial (entry := entry) hidle.1 ht hent hidle.2.1 hidle.2.2.1 hidle.2.2.2
   have key := runLoop_wf gl none fuel 0 (prepare s entry) [] hw
   unfold runEval at hr
   split at hr <;> try (cases hr)
   rename_i sf hd
   rw [hd] at key
-  obtain ⟨k1, k2⟩ := key
+  obtain ⟨k1, k2, _⟩ := key
   obtain ⟨g1, _, _, _⟩ := gl.frame (onError sf)
-  refine ⟨gl.inv (onError sf) k1, by rw [g1, he]; rfl, ?_⟩
+  refine ⟨gl.inv (onError sf) k1, by rw [g1, he]; rfl, ?_, by rw [gl.acc]; exact cl.val_imm _ rfl⟩
   rw [g1]
   show 0 < (List.replicate sf.stack.cells.length VCell.undefined).length
   simp; omega
@@ -269,9 +271,10 @@ theorem sp_zero_between_evaluations_verified {ops : HeapOps H} (cl : CodeLaws op
 /-- the old formulation follows: on idle machines running verified entry code, `Balanced` holds -/
 theorem balanced_sp {ops : HeapOps H} (cl : CodeLaws ops) (he : cl.e = 0) {gc : St H → St H} (gl : GcLaws cl gc)
     (s : St H) (entry fuel : Nat) (s' : St H) (hi : cl.HInv s.heap) (hcap : 0 < s.stack.cells.length)
+    (hacc : cl.Val s.acc)
     (hentry : EntryOK cl entry) (hsp : s.stack.sp = 0)
     (hr : runEval ops gc none fuel (prepare s entry) = .value s') : s'.stack.sp = 0 := by
-  have := balanced_of_verified cl gl s entry fuel s' ⟨hi, by rw [hsp, he], by rw [hsp]; exact hcap⟩ hentry hr
+  have := balanced_of_verified cl gl s entry fuel s' ⟨hi, by rw [hsp, he], by rw [hsp]; exact hcap, hacc⟩ hentry hr
   rw [this.2.1, he]
 
 /-! ### non-vacuity: a concrete verified program (`Lemmas/StackWFToy.lean`): entry code
@@ -279,7 +282,7 @@ theorem balanced_sp {ops : HeapOps H} (cl : CodeLaws ops) (he : cl.e = 0) {gc : 
 
 open Marwood.Vm.Toy in
 example : Idle Toy.laws Toy.idle ∧ EntryOK Toy.laws 1 :=
-  ⟨⟨trivial, rfl, by decide⟩, fun _ _ => Toy.entry1⟩
+  ⟨⟨trivial, rfl, by decide, trivial⟩, fun _ _ => Toy.entry1⟩
 
 open Marwood.Vm.Toy in
 /-- the evaluation really reaches HALT (seven instructions), so the theorem applies non-vacuously -/
@@ -309,17 +312,18 @@ theorem balanced_at {ops : HeapOps H} (cl : CodeLaws ops) {gc : St H → St H} (
     (hentry : ∃ t, tyOf (cl.code s.heap) entry = some t ∧ t.entry = true)
     (hr : runEval ops gc none fuel (prepare s entry) = .value s') : Idle cl s' := by
   obtain ⟨t, ht, hent⟩ := hentry
-  have hw := WFS.initial (entry := entry) hidle.1 ht hent hidle.2.1 hidle.2.2
+  have hw := WFS.initial (entry := entry) hidle.1 ht hent hidle.2.1 hidle.2.2.1 hidle.2.2.2
   have key := runLoop_wf gl none fuel 0 (prepare s entry) [] hw
   unfold runEval at hr
   split at hr <;> try (cases hr)
   rename_i sd hd
   rw [hd] at key
-  obtain ⟨k1, k2, k3⟩ := key
+  obtain ⟨k1, k2, k3, k4⟩ := key
   obtain ⟨g1, _, _, _⟩ := gl.frame (onDone sd)
-  refine ⟨gl.inv _ k2, ?_, ?_⟩
+  refine ⟨gl.inv _ k2, ?_, ?_, ?_⟩
   · rw [g1]; exact k1
   · rw [g1]; simpa [onDone, Stack.clear] using k3
+  · rw [gl.acc]; exact k4
 
 /-- per-state form of `failed_idle` -/
 theorem failed_idle_at {ops : HeapOps H} (cl : CodeLaws ops) (he : cl.e = 0) {gc : St H → St H}
@@ -327,15 +331,15 @@ theorem failed_idle_at {ops : HeapOps H} (cl : CodeLaws ops) (he : cl.e = 0) {gc
     (hentry : ∃ t, tyOf (cl.code s.heap) entry = some t ∧ t.entry = true)
     (hr : runEval ops gc none fuel (prepare s entry) = .failed f s') : Idle cl s' := by
   obtain ⟨t, ht, hent⟩ := hentry
-  have hw := WFS.initial (entry := entry) hidle.1 ht hent hidle.2.1 hidle.2.2
+  have hw := WFS.initial (entry := entry) hidle.1 ht hent hidle.2.1 hidle.2.2.1 hidle.2.2.2
   have key := runLoop_wf gl none fuel 0 (prepare s entry) [] hw
   unfold runEval at hr
   split at hr <;> try (cases hr)
   rename_i sf hd
   rw [hd] at key
-  obtain ⟨k1, k2⟩ := key
+  obtain ⟨k1, k2, _⟩ := key
   obtain ⟨g1, _, _, _⟩ := gl.frame (onError sf)
-  refine ⟨gl.inv (onError sf) k1, by rw [g1, he]; rfl, ?_⟩
+  refine ⟨gl.inv (onError sf) k1, by rw [g1, he]; rfl, ?_, by rw [gl.acc]; exact cl.val_imm _ rfl⟩
   rw [g1]
   show 0 < (List.replicate sf.stack.cells.length VCell.undefined).length
   simp; omega
@@ -403,7 +407,7 @@ theorem sp_zero_between_evaluations_concrete (ext : ExtOps) (ecl : ExtCodeLaws e
         rw [hr] at hrest
         exact ih s h hrest
   intro js s hi hsp hcap hok
-  have := key js s ⟨hi, hsp, by rw [hsp]; exact hcap⟩ hok
+  have := key js s ⟨hi, hsp, by rw [hsp]; exact hcap, trivial⟩ hok
   exact ⟨this.1, this.2.1⟩
 
 end Concrete
@@ -594,6 +598,49 @@ example : ∃ sf, runLoop (machine failingExt false) none 5 0 (sHalt 1) = .error
 open Marwood.Lemmas.Good.Demo in
 example : Quiescent (cgc false (onError (sHalt 1))) :=
   (failed_eval_resets_cgc _ _ _ _ _ _ _ demo_failed_eval).1
+
+/-! ### T07.4 without `StackDiscAlong` (see Proofs/C13.lean, "T13.3 without `StackDiscAlong`") -/
+
+/-- **T07.4 from the bundled invariant of the initial states**: of the failing evaluation (`s`) and of the later
+    evaluation on both machines (`s2`, `t2`: what `prepare_eval` made of the failed VM and of its twin). -/
+theorem failed_eval_equivalent_later_wf (ext : ExtOps) (force : Bool) (el : ExtLaws ext) (eg : ExtGood ext)
+    (ecl : ExtCodeLawsV ext)
+    (comp : CHeap → VCell → Outcome (CHeap × VCell)) (cl : CompLaws comp) (cg : CompGood comp)
+    (count : Option Nat) (fuel : Nat) (s : St CHeap) (f : Fault) (s1 : St CHeap)
+    (hfail : runEval (concreteOps ext) (cgc force) count fuel s = .failed f s1)
+    (h0 : VmOk ext ecl s) (sb : SizeBounded (machine ext force) s) (ca : CalleeOkAlong (machine ext force) s)
+    (sm1 : Small s1.heap) :
+    ∃ sf, runLoop (machine ext force) count fuel 0 s = .error f sf ∧ s1 = cgc force (onError sf) ∧
+      (∃ ψ, Sim ψ s1 (onError sf)) ∧
+      ∀ (d : VCell) (s2 t2 : St CHeap), addrFree d = true →
+        prepareEval comp s1 d = .ok s2 → prepareEval comp (onError sf) d = .ok t2 →
+        SizeBounded (machine ext force) s2 → VmOk ext ecl s2 → CalleeOkAlong (machine ext force) s2 →
+        SizeBounded (machine ext force) t2 → VmOk ext ecl t2 → CalleeOkAlong (machine ext force) t2 →
+        ∀ k : Nat,
+          (∀ t', pureN (machine ext force) k t2 = .done t' →
+            ∃ s' t'', run (machine ext force) k s2 = .done s' ∧ run (machine ext force) k t2 = .done t'' ∧
+              ∀ fl, resultObs fl s' = resultObs fl t'') ∧
+          (∀ e t', pureN (machine ext force) k t2 = .error e t' →
+            ∃ s' t'', run (machine ext force) k s2 = .error e s' ∧ run (machine ext force) k t2 = .error e t'' ∧
+              (∃ ψ, Sim ψ s' t' ∧ All2 (AddrRel ψ) (traceFrames s') (traceFrames t')) ∧
+              (∃ ψ, Sim ψ t'' t' ∧ All2 (AddrRel ψ) (traceFrames t'') (traceFrames t'))) := by
+  obtain ⟨sf, h1, h2, h3, h4⟩ := failed_eval_equivalent_later ext force el eg comp cl cg count fuel s f s1 hfail
+    h0.1 sb (stackDiscAlong_of_wfs force el eg h0 sb ca) sm1
+  refine ⟨sf, h1, h2, h3, ?_⟩
+  intro d s2 t2 hd hs2 ht2 sb2 v2 c2 sbt vt ct k
+  exact h4 d s2 t2 hd hs2 ht2 sb2 (stackDiscAlong_of_wfs force el eg v2 sb2 c2) sbt
+    (stackDiscAlong_of_wfs force el eg vt sbt ct) k
+
+open Marwood.Lemmas.Good.Demo in
+/-- non-vacuity: the failing demo evaluation, every hypothesis discharged -/
+example : ∃ sf, runLoop (machine failingExt false) none 5 0 (sHalt 1) = .error (.err .invalidBytecode) sf ∧
+    cgc false (onError (sHalt 1)) = cgc false (onError sf) ∧ (∃ ψ, Sim ψ (cgc false (onError (sHalt 1))) (onError sf)) := by
+  obtain ⟨sf, h1, h2, h3, _⟩ := failed_eval_equivalent_later_wf failingExt false failingExt_laws failingExt_good
+    failingExt_codeLawsV
+    (fun _ _ => .err .invalidSyntax) ⟨fun _ _ _ _ _ _ _ _ _ _ => .err⟩ ⟨fun _ _ _ _ _ _ _ h => (by cases h)⟩
+    none 5 (sHalt 1) _ _ demo_failed_eval (sHalt1_vmOk _ _) (sHalt_sizeBounded1 _) (sHalt_calleeOkAlong1 _)
+    demo_failed_small
+  exact ⟨sf, h1, h2, h3⟩
 
 end ConcreteSim
 
